@@ -184,7 +184,10 @@ impl SetSketchParams {
         //
         let loadfile = fileres.unwrap();
         let reader = BufReader::new(loadfile);
-        let hll_parameters: Self = serde_json::from_reader(reader).unwrap();
+        let hll_parameters: Self = serde_json::from_reader(reader).map_err(|e| {
+            log::error!("SetSketchParams reload_json : could not parse file {:?} : {}", filepath.as_os_str(), e);
+            format!("SetSketchParams reload_json could not parse file : {}", e)
+        })?;
         //
         Ok(hll_parameters)
     } // end of reload_json
